@@ -23,6 +23,8 @@ PLANS = {
         assumptions=[],
     ),
     "C02": dict(
+        mc=[dict(model="MC_EqWords", quick="MC_EqWords_fixed.cfg", thorough="MC_EqWords_fixed32.cfg"),
+            dict(model="MC_EqWords", quick="MC_EqWords_shipped.cfg", only="thorough", expect_violation="VerdictRight")],
         mcgen=[dict(model="MC_Cmp", quick="MC_Cmp_quick.cfg", thorough="MC_Cmp_thorough.cfg")],
         profiles=["checked", "release"],
         drive=True, shard=12000,
